@@ -37,11 +37,11 @@ OrderOK(e) ==
 OrderConf(e) == \A i, j \in 1..Len(e.words) : e.cmp[i][j] = Cmp(e.words[i], e.words[j])
 
 Next == /\ l <= Len(Rec)
-        /\ LET e == Rec[l] IN
-           /\ "panic" \notin DOMAIN e
-           /\ IF e.ev = "word_op" THEN OpOK(e)
-              ELSE IF e.ev = "word_order" THEN OrderOK(e) /\ (IF OrderConf(e) THEN TRUE ELSE PrintT(<<"NOTE", "cmp differs from reference order", l>>))
-              ELSE FALSE
+        /\ (LET e == Rec[l] IN
+             /\ "panic" \notin DOMAIN e
+             /\ IF e.ev = "word_op" THEN OpOK(e)
+                ELSE IF e.ev = "word_order" THEN OrderOK(e) /\ (IF OrderConf(e) THEN TRUE ELSE PrintT(<<"NOTE", "cmp differs from reference order", l>>))
+                ELSE FALSE) = TRUE
         /\ l' = l + 1
 Spec == Init /\ [][Next]_l
 Accepted == LET d == TLCGet("stats").diameter IN
